@@ -11,6 +11,7 @@ import (
 	"io"
 	"net/http"
 	"os"
+	"sync"
 	"time"
 
 	"github.com/fido-device-onboard/go-fdo/cbor"
@@ -46,6 +47,7 @@ type Wget struct {
 	Client *http.Client
 
 	// Message data
+	mu     sync.Mutex // guards name and sha384: the download goroutine reads them
 	name   string
 	sha384 []byte // optional
 
@@ -79,10 +81,24 @@ func (d *Wget) Receive(ctx context.Context, messageName string, messageBody io.R
 func (d *Wget) receive(ctx context.Context, messageName string, messageBody io.Reader) error {
 	switch messageName {
 	case "sha-384":
-		return cbor.NewDecoder(messageBody).Decode(&d.sha384)
+		var sha384 []byte
+		if err := cbor.NewDecoder(messageBody).Decode(&sha384); err != nil {
+			return err
+		}
+		d.mu.Lock()
+		d.sha384 = sha384
+		d.mu.Unlock()
+		return nil
 
 	case "name":
-		return cbor.NewDecoder(messageBody).Decode(&d.name)
+		var name string
+		if err := cbor.NewDecoder(messageBody).Decode(&name); err != nil {
+			return err
+		}
+		d.mu.Lock()
+		d.name = name
+		d.mu.Unlock()
+		return nil
 
 	case "url":
 		var url string
@@ -158,8 +174,11 @@ func (d *Wget) download(ctx context.Context, url string) (_ int64, err error) {
 	}
 
 	// Validate file checksum
-	if hashed := hash.Sum(nil); len(d.sha384) > 0 && !bytes.Equal(hashed, d.sha384) {
-		return 0, fmt.Errorf("checksum of %q failed verification: expected: %x, got: %x", d.name, d.sha384, hashed)
+	d.mu.Lock()
+	name, sha384 := d.name, d.sha384
+	d.mu.Unlock()
+	if hashed := hash.Sum(nil); len(sha384) > 0 && !bytes.Equal(hashed, sha384) {
+		return 0, fmt.Errorf("checksum of %q failed verification: expected: %x, got: %x", name, sha384, hashed)
 	}
 
 	// Rename temp file to final file name
@@ -167,15 +186,15 @@ func (d *Wget) download(ctx context.Context, url string) (_ int64, err error) {
 	if resolveName == nil {
 		resolveName = func(name string) string { return name }
 	}
-	if d.name == "" {
+	if name == "" {
 		return 0, fmt.Errorf("name not sent before file download completed")
 	}
 	rename := d.Rename
 	if rename == nil {
 		rename = os.Rename
 	}
-	if err := rename(temp.Name(), resolveName(d.name)); err != nil {
-		return 0, fmt.Errorf("error renaming file to %q: %w", d.name, err)
+	if err := rename(temp.Name(), resolveName(name)); err != nil {
+		return 0, fmt.Errorf("error renaming file to %q: %w", name, err)
 	}
 
 	return n, nil
@@ -202,7 +221,9 @@ func (d *Wget) reset() {
 	if d.cancel != nil {
 		d.cancel()
 	}
+	d.mu.Lock()
 	d.name = ""
 	d.sha384 = nil
+	d.mu.Unlock()
 	d.resultCh = nil
 }
